@@ -59,13 +59,22 @@ var (
 	)
 )
 
+// bound on one timestamp exchange when the configuration does not set one
+const defaultTimeout = 60 * time.Second
+
 func New(conf *config.TimestampConfig) (t pkcs9.Timestamper, err error) {
 	tlsconf := &tls.Config{}
 	if err := x509tools.LoadCertPool(conf.CaCert, tlsconf); err != nil {
 		return nil, err
 	}
+	timeout := time.Second * time.Duration(conf.Timeout)
+	if timeout <= 0 {
+		// without a limit one server that stops answering would keep the
+		// others from ever being tried
+		timeout = defaultTimeout
+	}
 	client := &http.Client{
-		Timeout: time.Second * time.Duration(conf.Timeout),
+		Timeout: timeout,
 		Transport: &http.Transport{
 			TLSClientConfig: tlsconf,
 		},
